@@ -1,17 +1,25 @@
 """Stand-ins for sys.stdin used by several checks."""
 
+import array
+import fcntl
 import io
 import os
+import termios
 import threading
+import time
 
 
 class PipeStdin:
     """A real os.pipe wrapped in io.BufferedReader (what sys.stdin.buffer is),
-    fed by a writer thread that dribbles 1-7-byte, sample-unaligned chunks."""
+    with fileno() like the real sys.stdin, fed by a writer thread that
+    dribbles small, sample- and window-unaligned chunks.  With lockstep=True the
+    producer is 'slow': it writes the next chunk only once the pipe has been
+    drained, so a consumer that bypasses the buffered reader sees short reads."""
 
-    def __init__(self, data, rng, max_chunk=7):
+    def __init__(self, data, rng, max_chunk=7, lockstep=True):
         r, w = os.pipe()
         self.buffer = io.BufferedReader(io.FileIO(r, "rb", closefd=True))
+        self._stop = False
         chunks = []
         i = 0
         while i < len(data):
@@ -19,19 +27,42 @@ class PipeStdin:
             chunks.append(data[i : i + k])
             i += k
 
+        def pending():
+            buf = array.array("i", [0])
+            try:
+                fcntl.ioctl(w, termios.FIONREAD, buf)
+                return buf[0]
+            except OSError:
+                return 0
+
         def feed():
             try:
                 for c in chunks:
+                    if lockstep:
+                        spins = 0
+                        while pending() > 0 and not self._stop:
+                            spins += 1
+                            time.sleep(0 if spins < 50 else 0.0002)
+                    if self._stop:
+                        break
                     os.write(w, c)
             except OSError:
                 pass
             finally:
-                os.close(w)
+                try:
+                    os.close(w)
+                except OSError:
+                    pass
 
         self.thread = threading.Thread(target=feed, daemon=True, name="vf-stdin-feeder")
         self.thread.start()
 
+    def fileno(self):
+        """like the real sys.stdin: code that goes to the descriptor itself reads the same pipe"""
+        return self.buffer.fileno()
+
     def close(self):
+        self._stop = True
         try:
             self.buffer.close()  # unblocks a feeder stuck on a full pipe
         except Exception:
